@@ -4,12 +4,17 @@ from framework.props import callfamily
 
 RULE = ("every instantiated tuple of a small universe per type and parameter grid (exhaustive), plus every call of the "
         "C05 workloads that leaves all variables instantiated: status must be inconsistency iff O-sem is false "
-        "(circuit constraints: on permutations only). distinct = distinct (type, box, params); non-trivial = point "
+        "(circuit constraints: on permutations only). Through the engine, beyond the small universe: large planted models "
+        "(arity <= 12) with every variable fixed - the satisfying point is delivered, a violating neighbour is not. distinct = distinct (type, box, params); non-trivial = point "
         "input, or a call that changed a bound / answered inconsistency or entailment")
 
 
 def main(tier, seed):
-    rep = callfamily.run("C06", tier, seed, O.TYPES, "exploration", RULE, include_points=True)
+    from framework.props import bigrun
+
+    rep = callfamily.run("C06", tier, seed, O.TYPES, "exploration", RULE, include_points=True,
+                         extra_jobs=bigrun.jobs("C06", tier, seed + 3), extra_aggregate=bigrun.aggregate)
+    rep.need("big.ground_violating_points", 100, "ground violating points of large models through the engine")
     rep.need("point_inputs", 2000, "ground-tuple monitor")
     rep.need("calls_collapsing_box_to_point", 50, "collapse monitor")
     return rep.finish()
